@@ -63,6 +63,13 @@ def gen_world(rng, tag, n_classes=8, with_ignore=False, ser_name="_serialize", i
             cand = all_field_names(None, built, d) + ["zz"]
             d["ign"] = (ign_name if rng.random() < 0.8 else "_other_ignore", rng.sample(cand, rng.randint(0, min(3, len(cand)))))
         built.append(d)
+    # a locally registered class whose simple name is also the name of a class that lives in a module: the module-
+    # qualified descriptor must still be rebuilt as the module's class, the bare name as the local one
+    mod_classes = [d for d in built if d["module"] != W.MAIN and d["kind"] in ("dict", "slot")]
+    if mod_classes and rng.random() < 0.8:
+        t = rng.choice(mod_classes)
+        if not any(d["cid"] == t["name"] for d in built):
+            built.append(W.cdesc(t["name"], "dict", W.MAIN, t["name"], defaults=[("shadow", rand_json(rng, 1))]))
     # enums and Decimal
     em = rng.choice(mods)
     built.append(W.cdesc(em + ".Color", "enum", em, "Color", members=[1, 2, "b"]))
